@@ -116,6 +116,9 @@ func (s *dualWriter) Add(w io.Writer) {
 
 func (s *dualWriter) Remove(w io.Writer) {
 	if w != nil {
+		// a Write that is walking the list right now (a destination may take
+		// itself off its logger from inside its Write) keeps the list it has
+		s.Normal = append(LWs(nil), s.Normal...)
 		for i, x := range s.Normal {
 			if xl, ok := x.(*logwr); ok && xl.Writer == w {
 				s.Normal = append(s.Normal[:i], s.Normal[i+1:]...)
@@ -141,6 +144,7 @@ func (s *dualWriter) AddErrorWriter(w io.Writer) {
 
 func (s *dualWriter) RemoveErrorWriter(w io.Writer) {
 	if w != nil {
+		s.Error = append(LWs(nil), s.Error...) // see Remove
 		for i, x := range s.Error {
 			if xl, ok := x.(*logwr); ok && xl.Writer == w {
 				s.Error = append(s.Error[:i], s.Error[i+1:]...)
@@ -173,6 +177,8 @@ func (s *dualWriter) RemoveLevelWriter(lvl Level, w io.Writer) {
 			s.leveled = make(map[Level]LWs)
 		}
 		if lw, ok := s.leveled[lvl]; ok {
+			lw = append(LWs(nil), lw...) // see Remove
+			s.leveled[lvl] = lw
 			for i, wr := range lw {
 				if xl, ok := wr.(*logwr); ok && xl.Writer == w {
 					s.leveled[lvl] = append(s.leveled[lvl][:i], s.leveled[lvl][i+1:]...)
